@@ -47,7 +47,12 @@ def generate(tier, seed):
         pre = ""
         if rng.random() < 0.5:
             pre = " ".join(g.defun(rng.randint(1, 3)) for _ in range(rng.randint(1, 2)))
-        prog = relayout(rng, g.program(rng.choice([1, 2])))
+        core = g.program(rng.choice([1, 2]))
+        if rng.random() < 0.5:
+            # long forms holding multi-byte characters at arbitrary byte offsets (rendering truncates long entries)
+            mb = lambda: "".join(rng.choice(["é", "λ", "ü", "😀", "a", "中", "ß"]) for _ in range(rng.randint(0, 70)))
+            core = "(list \"%s\" '%s (progn %s) \"%s\" '(%s))" % (mb(), "sym-" + mb().replace("😀", "x") + "z", core, mb(), " ".join("é%d" % i for i in range(rng.randint(0, 30))))
+        prog = relayout(rng, core)
         if pre and rng.random() < 0.5: pre = relayout(rng, pre)
         cases.append((pre, prog, rng.choice(["string", "string", "file", "nested"]), rng.random() < 0.5))
     probe = []
